@@ -316,7 +316,18 @@ func (raceEngine) Run(t *testing.T, batch string, tape *rt.Tape, runIdx uint64, 
 	default:
 		rec = raceOps(t, batch, tape, runIdx, trace)
 	}
-	// violations of other properties found by the reused engines are theirs; keep them visible but retag nothing
+	// The reused engines compare every call with the same call made alone / in process. In this check such a
+	// difference is exactly C13's "every call returns what it would return in isolation", so it is reported
+	// under C13 as well (the original entry is kept for the evidence of the other property).
+	if strings.HasPrefix(batch, "c13.steps") || strings.HasPrefix(batch, "c13.session") {
+		var own []Violation
+		for _, v := range rec.Violations {
+			if (v.Property == "C11" || v.Property == "C05") && (v.Class == "mismatch" || v.Class == "duplicate" || v.Class == "lost") {
+				own = append(own, Violation{"C13", v.Class, "concurrent-use:" + v.Signature, "found by the " + v.Property + " oracle under concurrent use: " + v.Detail})
+			}
+		}
+		rec.Violations = append(own, rec.Violations...)
+	}
 	if n := rt.RaceErrors() - before; n > 0 {
 		rep := newRaceReports()
 		sig, sdk := raceSignature(rep)
